@@ -22,6 +22,26 @@ Example C19_batch_changes_state :
   fst (fst (batch_write_reqs lang_match V2 w_client (bs "tbl") wb_reqs [])) <> w_client.
 Proof. vm_compute. discriminate. Qed.
 
+(* C19 / C08 (closure theorems): the same batch, issued through batch_write, answers success with nothing unprocessed
+   (premise of C19_successful_batch_is_its_decomposition); it meets every premise of C19_validated_batch_succeeds; and a
+   batch that names a missing table next to a valid put fails (premise of C08_failed_batch_no_trace) *)
+From Minidyn Require Import Proofs.ClientFacts.
+Example C19_closure_premise_met :
+  exists c', batch_write lang_match V2 w_client [(bs "tbl", wb_reqs)] = (c', ok_obs (PBatchWrite []) []) /\ c' <> w_client.
+Proof. eexists. split; [vm_compute; reflexivity|vm_compute; discriminate]. Qed.
+
+Example C19_validated_premises_met :
+  lookup (bs "c") (fst (run lang_match lang_update V2 [] w_ops)) = Some w_client /\
+  c_failure w_client = None /\ (forall tn, In tn (keys [(bs "tbl", wb_reqs)]) -> v1_name_ok V2 tn = true) /\
+  forallb wreq_ok (flat_map snd [(bs "tbl", wb_reqs)]) = true /\
+  Nat.ltb batch_limit (List.length (flat_map snd [(bs "tbl", wb_reqs)])) = false /\
+  flat_map (prevalidate_table w_client) [(bs "tbl", wb_reqs)] = [].
+Proof. split; [exact (proj1 w_reach)|]. repeat split; try (vm_compute; reflexivity). Qed.
+
+Example C08_failed_batch_premise_met :
+  res_ok (o_res (snd (batch_write lang_match V2 w_client [(bs "nope", [WPut (it "p" "10")]); (bs "tbl", wb_reqs)]))) = false.
+Proof. vm_compute. reflexivity. Qed.
+
 (* C17: the envelope "passes SDK v1 validation" holds of ordinary requests, and the step is not an identity *)
 Example C17_premise_met :
   names_ok (OPut (bs "tbl") (it "z" "1") None [] [] false) = true /\
